@@ -60,7 +60,7 @@ func IsOrdinal(l int) bool { return l >= Panic && l <= Trace }
 type Custom struct {
 	Value    int
 	Title    string
-	TreatAs  int  // valid when HasTreat
+	TreatAs  int // valid when HasTreat
 	HasTreat bool
 	ErrDev   bool
 	Tags     []string // index 1..5, "" = none given
